@@ -133,6 +133,17 @@ func (e *Engine) Monitor(tx *bbolt.Tx) []Disc {
 			if _, err := st.Store.LoadById(tx, id); err != nil {
 				add(Disc{Kind: "entity-load", Store: root, Id: id, Exp: "LoadById ok", Act: err.Error()})
 			}
+			// the third lookup: LoadEntity fills an entity the caller supplies
+			le := st.Store.GetEntityStrategy().NewEntity()
+			if lfound, lerr := st.Store.LoadEntity(tx, id, le); lerr != nil || !lfound || le.GetId() != id {
+				add(Disc{Kind: "entity-load", Store: root, Id: id, Symbol: "LoadEntity", Exp: "found", Act: fmt.Sprintf("found=%v err=%v id=%q", lfound, lerr, le.GetId())})
+			} else {
+				for _, f := range rootFields(st.Def) {
+					if !valEq(me.V[f.Name], le.V[f.Name]) {
+						add(Disc{Kind: "entity-field", Store: root, Symbol: f.Name + " (LoadEntity)", Id: id, Exp: fmt.Sprintf("%#v", me.V[f.Name]), Act: fmt.Sprintf("%#v", le.V[f.Name])})
+					}
+				}
+			}
 			if root == Emps && e.Cfg.Children {
 				for _, ck := range []string{Mgrs, Ctrs} {
 					cst := e.Sc.St(ck)
@@ -149,6 +160,16 @@ func (e *Engine) Monitor(tx *bbolt.Tx) []Disc {
 					_, lerr := cst.Store.LoadById(tx, id)
 					if (lerr == nil) != visible {
 						add(Disc{Kind: "child-visibility", Store: ck, Symbol: "LoadById", Id: id, Exp: fmt.Sprint(visible), Act: fmt.Sprint(lerr)})
+					}
+					cle := cst.Store.GetEntityStrategy().NewEntity()
+					if lfound, lerr := cst.Store.LoadEntity(tx, id, cle); lerr != nil || lfound != visible {
+						add(Disc{Kind: "child-visibility", Store: ck, Symbol: "LoadEntity", Id: id, Exp: fmt.Sprint(visible), Act: fmt.Sprintf("found=%v err=%v", lfound, lerr)})
+					} else if lfound && has {
+						for _, f := range cst.Def.Fields {
+							if !valEq(me.Child[ck][f.Name], cle.V[f.Name]) {
+								add(Disc{Kind: "child-field", Store: ck, Symbol: f.Name + " (LoadEntity)", Id: id, Exp: fmt.Sprintf("%#v", me.Child[ck][f.Name]), Act: fmt.Sprintf("%#v", cle.V[f.Name])})
+							}
+						}
 					}
 					if cfound && ce != nil {
 						for _, f := range rootFields(st.Def) {
@@ -178,6 +199,12 @@ func (e *Engine) Monitor(tx *bbolt.Tx) []Disc {
 			}
 			if _, found, _ := st.Store.FindById(tx, id); found {
 				add(Disc{Kind: "entity-set", Store: root, Id: id, Exp: "absent", Act: "FindById found"})
+			}
+			if found, _ := st.Store.LoadEntity(tx, id, st.Store.GetEntityStrategy().NewEntity()); found {
+				add(Disc{Kind: "entity-set", Store: root, Id: id, Exp: "absent", Act: "LoadEntity found"})
+			}
+			if _, err := st.Store.LoadById(tx, id); err == nil || !boltz.IsErrNotFoundErr(err) {
+				add(Disc{Kind: "entity-set", Store: root, Id: id, Exp: "LoadById: not found error", Act: fmt.Sprint(err)})
 			}
 			if root == Emps && e.Cfg.Children {
 				for _, ck := range []string{Mgrs, Ctrs} {
